@@ -1,5 +1,6 @@
 import Xp.Proofs.C07
 import Xp.Proofs.C07Hist
+import Xp.Proofs.C07Rev
 /-
 C07 — claim and XR exchange exactly the fields each side owns.
 
@@ -407,6 +408,145 @@ theorem xr_to_claim_fails_for_csa_on_unfixed_witness :
     -- the server-side syncer on the same state does not copy it
     (alookup "region" (syncSSA wcfg "g" d10Witness).st.cm.specFields).isNone = true := by decide
 
+
+/-! ### compositionRevisionRef: one direction per update policy
+
+Each statement below is about ONE sync and mentions nothing but that sync's claim and
+XR (and, for server-side apply, the configuration the claim controller last applied to
+that same XR): which claims a syncer served before is not an input. The harness runs
+many claims through one long-lived syncer object and compares every sync with these
+per-sync functions, so any state carried from one sync to the next is a disagreement. -/
+
+/-- **revision_ref_claim_to_xr**, every policy value, both syncers, the write bodies:
+the object handed to server-side apply / client-side Apply carries the claim's
+`compositionRevisionRef` when the XR's update policy (as read) is `Manual`, and carries
+NO `compositionRevisionRef` at all when the policy is anything else - `Automatic`, unset,
+or any other string - and on a first sync (no XR, hence no policy). -/
+theorem revision_ref_claim_to_xr (c : Cfg) (gen : String) (cm : KObj) (xr : Option KObj) (cs : AL J) :
+    (policyOf (xrSpecFields xr) = some "Manual" →
+      alookup revKey (ssaPatch c gen cm xr cs).specFields = alookup revKey cs ∧
+      alookup revKey (csaDesired c gen cm xr cs).specFields = alookup revKey cs) ∧
+    (policyOf (xrSpecFields xr) ≠ some "Manual" →
+      alookup revKey (ssaPatch c gen cm xr cs).specFields = none ∧
+      alookup revKey (csaDesired c gen cm xr cs).specFields = none) := by
+  have k1 : alookup revKey (ssaPatch c gen cm xr cs).specFields =
+      alookup revKey (specToXR c cm (policyOf (xrSpecFields xr) == some "Manual") cs) := rfl
+  have k2 : alookup revKey (csaDesired c gen cm xr cs).specFields =
+      alookup revKey (specToXR c cm (policyOf (xrSpecFields xr) == some "Manual") cs) := rfl
+  rw [k1, k2, alookup_specToXR_rev]
+  constructor
+  · intro hp; simp [hp]
+  · intro hp
+    have : (policyOf (xrSpecFields xr) == some "Manual") = false := by simpa using hp
+    simp [this]
+
+/-- **revision_ref_claim_to_xr**, in the store, re-sync: when the XR's update policy is not
+`Manual` the XR side owns the field, and the stored XR's `compositionRevisionRef` after
+the sync is exactly what it was before - whatever the claim carries. For server-side
+apply this needs that the claim controller did not itself apply the field to this XR the
+last time (it did only if the policy was `Manual` then; in that case apply drops what it
+owned, it still never writes the claim's value). -/
+theorem revision_ref_xr_kept_unless_manual (c : Cfg) (gen : String) (s : St) (cs : AL J) (x : KObj)
+    (h : s.cm.spec = some (.obj cs)) (hx : s.xr = some x)
+    (hpol : policyOf x.specFields ≠ some "Manual") :
+    ((∀ q, s.prev = some q → alookup revKey q.specFields = none) →
+      ∃ y, (syncSSA c gen s).st.xr = some y ∧ alookup revKey y.specFields = alookup revKey x.specFields) ∧
+    (∃ y, (syncCSA c gen s).st.xr = some y ∧ alookup revKey y.specFields = alookup revKey x.specFields) := by
+  have hb := (revision_ref_claim_to_xr c gen s.cm (some x) cs).2 hpol
+  refine ⟨?_, ?_⟩
+  · intro hprev
+    refine ⟨_, syncSSA_xr c gen s cs h, ?_⟩
+    rw [hx]
+    exact applySSA_spec_untouched x s.prev _ _ revKey rfl hb.1 hprev
+  · obtain ⟨w, hw⟩ := syncCSA_eq c gen s cs h
+    refine ⟨csaApplied c gen s cs, ?_, ?_⟩
+    · rw [hw]; exact csaBack_xr _ _ _ _ _ rfl
+    · have hnone := hb.2
+      unfold csaApplied
+      simp only [hx]
+      split
+      · rfl
+      · exact mergePatchXR_spec_untouched x _ _ revKey rfl hnone
+
+/-- **revision_ref_claim_to_xr**, in the store, first sync: the XR either syncer creates
+has no `compositionRevisionRef`, whatever the claim carries (a new XR has no update
+policy yet, so the claim's reference is not pushed). -/
+theorem revision_ref_absent_on_first_sync (c : Cfg) (gen : String) (s : St) (cs : AL J)
+    (h : s.cm.spec = some (.obj cs)) (hx : s.xr = none) :
+    (∃ y, (syncSSA c gen s).st.xr = some y ∧ alookup revKey y.specFields = none) ∧
+    (∃ y, (syncCSA c gen s).st.xr = some y ∧ alookup revKey y.specFields = none) := by
+  have hb := (revision_ref_claim_to_xr c gen s.cm none cs).2 (by decide)
+  refine ⟨⟨_, first_sync_creates_body c gen s cs h hx, hb.1⟩, ?_⟩
+  obtain ⟨w, hw⟩ := syncCSA_eq c gen s cs h
+  refine ⟨csaApplied c gen s cs, ?_, ?_⟩
+  · rw [hw]; exact csaBack_xr _ _ _ _ _ rfl
+  · unfold csaApplied
+    simp only [hx]
+    exact hb.2
+
+/-- **revision_ref_xr_to_claim**, every policy value, both syncers, in the store: after the
+sync the claim's `compositionRevisionRef` is the XR's iff the XR's update policy is
+`Automatic`; under every other value (`Manual`, unset, any other string, no XR) it is
+exactly the claim's own. Server-side syncer: policy and revision of the XR as read (an
+XR without a revision leaves the claim's alone). Client-side syncer (successful sync):
+policy and revision of the XR as applied (an XR without a revision is mirrored as an
+explicit null, which the API server prunes). -/
+theorem revision_ref_xr_to_claim (c : Cfg) (gen : String) (s : St) (cs : AL J)
+    (h : s.cm.spec = some (.obj cs)) :
+    (alookup revKey (syncSSA c gen s).st.cm.specFields =
+      if policyOf (xrSpecFields s.xr) = some "Automatic" then
+        (match alookup revKey (xrSpecFields s.xr) with
+         | some r => some r
+         | none => alookup revKey cs)
+      else alookup revKey cs) ∧
+    ((syncCSA c gen s).err = "" →
+      alookup revKey (syncCSA c gen s).st.cm.specFields =
+        if policyOf (csaApplied c gen s cs).specFields = some "Automatic" then
+          some ((alookup revKey (csaApplied c gen s cs).specFields).getD .null)
+        else alookup revKey cs) := by
+  refine ⟨?_, ?_⟩
+  · have := (xr_to_claim c gen s cs h).1 revKey
+    simp only [revKey_ne_resourceRef, revKey_ne_compositionRef, if_false] at this
+    simpa using this
+  · intro herr
+    obtain ⟨w, hw⟩ := syncCSA_eq c gen s cs h
+    obtain ⟨cs1, hcs1, hsame⟩ := csaBound_spec c gen s cs h
+    rw [hw] at herr ⊢
+    rw [csaBack_rev c _ _ _ w cs1 hcs1 herr, hsame revKey revKey_ne_resourceRef]
+
+/-- the three policy values on concrete states: a claim pinned to `rev-1` against an XR
+at `rev-2`. Manual: the XR receives `rev-1`, the claim keeps `rev-1`. Automatic: the XR
+keeps `rev-2`, the claim receives `rev-2`. Unset: neither side changes. Both syncers. -/
+def revState (policy : Option String) : St :=
+  let pol : AL J := match policy with | some p => [("compositionUpdatePolicy", .str p)] | none => []
+  { cm := { name := "my-claim"
+            spec := some (.obj (pol ++ [("compositionRevisionRef", .obj [("name", .str "rev-1")]),
+                                        ("resourceRef", xrRefJ wcfg "my-claim-x")])) }
+    xr := some { name := "my-claim-x"
+                 labels := [("crossplane.io/claim-name", "my-claim"), ("crossplane.io/claim-namespace", "team-a")]
+                 spec := some (.obj (pol ++ [("claimRef", claimRefJ wcfg { name := "my-claim" }),
+                                             ("compositionRevisionRef", .obj [("name", .str "rev-2")])])) } }
+
+def revOf (o : Option KObj) : String :=
+  match o with
+  | some x => (match alookup revKey x.specFields with
+               | some (.obj [("name", .str v)]) => v
+               | _ => "")
+  | none => ""
+
+example :
+    (revOf (syncSSA wcfg "g" (revState (some "Manual"))).st.xr = "rev-1" ∧
+     revOf (some (syncSSA wcfg "g" (revState (some "Manual"))).st.cm) = "rev-1" ∧
+     revOf (syncCSA wcfg "g" (revState (some "Manual"))).st.xr = "rev-1" ∧
+     revOf (some (syncCSA wcfg "g" (revState (some "Manual"))).st.cm) = "rev-1") ∧
+    (revOf (syncSSA wcfg "g" (revState (some "Automatic"))).st.xr = "rev-2" ∧
+     revOf (some (syncSSA wcfg "g" (revState (some "Automatic"))).st.cm) = "rev-2" ∧
+     revOf (syncCSA wcfg "g" (revState (some "Automatic"))).st.xr = "rev-2" ∧
+     revOf (some (syncCSA wcfg "g" (revState (some "Automatic"))).st.cm) = "rev-2") ∧
+    (revOf (syncSSA wcfg "g" (revState none)).st.xr = "rev-2" ∧
+     revOf (some (syncSSA wcfg "g" (revState none)).st.cm) = "rev-1" ∧
+     revOf (syncCSA wcfg "g" (revState none)).st.xr = "rev-2" ∧
+     revOf (some (syncCSA wcfg "g" (revState none)).st.cm) = "rev-1") := by decide
 
 /-! ### the hypotheses are satisfiable by non-trivial states -/
 
